@@ -587,3 +587,11 @@ fn functions(thorough: bool) -> Gen<Vec<S>> {
     ]);
     Gen::or(vec![basic, rec])
 }
+
+/// hosts for the layout property (C10)
+pub fn layout_hosts(thorough: bool) -> Gen<Vec<S>> {
+    let cf = control_flow(false);
+    let stride = if thorough { 97 } else { 211 };
+    let n = cf.count / stride;
+    Gen::or(vec![stmt_sequences(2), functions(false), Gen::new(n, move |i| cf.nth(i * stride))])
+}
